@@ -197,16 +197,19 @@ Proof.
   rewrite slice_ok; [eauto| lia | rewrite app_length; simpl; lia].
 Qed.
 
-Lemma get_subst_total vocab e key : key_shape key -> exists v, get_subst_chk vocab e key = Ok v.
+Lemma get_subst_total tbl e key : key_shape key -> exists v, get_subst_chk tbl e key = Ok v.
 Proof.
   intro Hs. unfold get_subst_chk. destruct (assoc key (e_custom e)); [eauto|].
   pose proof (key_shape_len key Hs) as Hl.
   ok_idx key 1%nat.
   assert (Hd : exists v,
-    (if mem key vocab then Ok match assoc key (e_defaults e) with Some v => v | None => [] end
-     else if prefixb lit_label_13 key then do ns <- slice key 6 (length key - 1); Ok (label e ns)
-     else Ok (e_empty e)) = Ok v).
-  { destruct (mem key vocab); [eauto|].
+    match assoc key tbl with
+    | Some (Fn f) => Ok (f e)
+    | Some Oracle => Ok match assoc key (e_defaults e) with Some v => v | None => [] end
+    | None => if prefixb lit_label_13 key then do ns <- slice key 6 (length key - 1); Ok (label e ns)
+              else Ok (e_empty e)
+    end = Ok v).
+  { destruct (assoc key tbl) as [[f|]|]; [eauto|eauto|].
     destruct (prefixb lit_label_13 key) eqn:Ep; [|eauto].
     pose proof (prefixb_length _ _ Ep) as Hl6. change (length lit_label_13) with 6%nat in Hl6.
     pose proof (key_shape_not_label6 key Hs Ep).
@@ -233,11 +236,11 @@ Proof.
 Qed.
 
 (* unknown placeholders yield the configured empty value *)
-Lemma unknown_placeholder_empty vocab e key k1 :
+Lemma unknown_placeholder_empty tbl e key k1 :
   assoc key (e_custom e) = None -> idx key 1 = Ok k1 ->
   k1 <> 62 -> k1 <> 60 -> k1 <> 126 -> k1 <> 63 -> k1 <> 36 ->
-  mem key vocab = false -> prefixb lit_label_13 key = false ->
-  get_subst_chk vocab e key = Ok (e_empty e).
+  assoc key tbl = None -> prefixb lit_label_13 key = false ->
+  get_subst_chk tbl e key = Ok (e_empty e).
 Proof.
   intros Hc Hi H1 H2 H3 H4 H5 Hv Hl. unfold get_subst_chk. rewrite Hc, Hi. cbn [rbind].
   rewrite Hv, Hl.
@@ -245,10 +248,10 @@ Proof.
 Qed.
 
 (* a request / response header or cookie that the request does not carry: empty value as well *)
-Lemma missing_header_empty vocab e key w :
+Lemma missing_header_empty tbl e key w :
   key_shape key -> assoc key (e_custom e) = None -> idx key 1 = Ok 62 -> key_mid key = Ok w ->
-  hdr_lookup w (e_reqh e) = None -> mem key vocab = false ->
-  get_subst_chk vocab e key = Ok (e_empty e).
+  hdr_lookup w (e_reqh e) = None -> assoc key tbl = None ->
+  get_subst_chk tbl e key = Ok (e_empty e).
 Proof.
   intros Hs Hc Hi Hm Hh Hv. unfold get_subst_chk. rewrite Hc, Hi. cbn [rbind].
   rewrite Hm. cbn [rbind]. rewrite Hh, Hv.
@@ -261,10 +264,10 @@ Qed.
 (* the whole expansion against a request environment never panics *)
 Lemma expand_env_total e s :
   exists out t, expand_env e s = Ok out /\ template s = Ok t /\
-                Forall (fun k => exists v, get_subst_chk gen_c20_vocab e k = Ok v) (keys_of t).
+                Forall (fun k => exists v, get_subst_chk dispatch e k = Ok v) (keys_of t).
 Proof.
   destruct (template_total s) as [t [Et Hk]].
-  destruct (expand_total (get_subst gen_c20_vocab e) s) as [out Eo].
+  destruct (expand_total (get_subst dispatch e) s) as [out Eo].
   exists out, t. split; [exact Eo|]. split; [exact Et|].
   eapply Forall_impl; [|exact Hk]. intros k Hs. apply get_subst_total. exact Hs.
 Qed.
@@ -464,15 +467,16 @@ Proof.
 Qed.
 
 (* ---- logged status and size are what the client got ----------------------------------------- *)
-(* the recorder and the writer below it agree: same byte count, and either both have committed
-   the same status or neither has (the recorder then still holds its default 200) *)
+(* the recorder and the writer below it agree: every byte the writer accepted is in the recorder's
+   count, except those accepted by a call that reported an error (u_lost); and either both have
+   committed the same status or neither has (the recorder then still holds its default 200) *)
 Definition consistent (c : wcfg) (s : uw * rec) : Prop :=
-  u_size (fst s) = logged_size c (snd s) /\
+  u_size (fst s) = logged_size c (snd s) + u_lost (fst s) /\
   ((u_status (fst s) = Some (r_status (snd s)) /\ r_wrote (snd s) = true) \/
    (u_status (fst s) = None /\ r_status (snd s) = 200%Z /\ r_wrote (snd s) = false)).
 
 Lemma consistent_client c s : consistent c s ->
-  client_status (fst s) = r_status (snd s) /\ u_size (fst s) = logged_size c (snd s).
+  client_status (fst s) = r_status (snd s) /\ u_size (fst s) = logged_size c (snd s) + u_lost (fst s).
 Proof.
   intros [Hs [[Hc _]|[Hc [H2 _]]]]; split; try exact Hs; unfold client_status; rewrite Hc; [reflexivity|].
   symmetry. exact H2.
@@ -481,28 +485,68 @@ Qed.
 Lemma consistent_init c : consistent c (uw0, rec0).
 Proof. split; simpl; [unfold logged_size; destruct (w_head c); reflexivity|right; repeat split; reflexivity]. Qed.
 
+Lemma head_ok_cases c : head_ok c = true ->
+  (w_head c = true /\ w_nethttp c = true) \/ w_head c = false.
+Proof. unfold head_ok. destruct (w_head c), (w_nethttp c); simpl; auto; discriminate. Qed.
+
+(* the implicit 200 of a body call *)
+Lemma wh200_view c u r : consistent c (u, r) ->
+  u_status (uw_wh u 200) = Some (r_status r) /\ u_size (uw_wh u 200) = u_size u /\
+  u_lost (uw_wh u 200) = u_lost u.
+Proof.
+  intros [_ Hc]. cbn [fst snd] in Hc. unfold uw_wh.
+  destruct Hc as [[Hc _]|[Hc [H2 _]]]; rewrite Hc; cbn; [auto|]. rewrite H2. auto.
+Qed.
+
+Lemma logged_size_add c r n :
+  logged_size c (rec_add r n) = if w_head c then 0 else logged_size c r + n.
+Proof. unfold logged_size, rec_add. cbn. destruct (w_head c); reflexivity. Qed.
+
+Lemma copy_chunk_split j : j = j - j mod copy_chunk + j mod copy_chunk.
+Proof. pose proof (N.mod_le j copy_chunk ltac:(discriminate)). lia. Qed.
+
 Lemma step_consistent c s o :
   head_ok c = true -> final_codes [o] = true -> consistent c s -> consistent c (step c s o).
 Proof.
-  intros Hh Hf [Hs Hc]. destruct s as [u r]. destruct o as [code|len fail|]; [| |split; assumption].
-  - simpl in Hf. rewrite andb_true_r in Hf. simpl in *. unfold uw_wh.
+  intros Hh Hf Hcons. destruct s as [u r]. destruct o as [code|k len se cut|]; [| |exact Hcons].
+  - destruct Hcons as [Hs Hc]. simpl in Hf. rewrite andb_true_r in Hf. simpl in *. unfold uw_wh.
     destruct Hc as [[Hc Hw]|[Hc [H2 Hw]]]; rewrite Hc, Hw; simpl.
     + split; [exact Hs|left; split; assumption].
     + rewrite Hf. simpl. split; [exact Hs|left; split; reflexivity].
-  - simpl in *. unfold uw_write.
-    assert (H1 : u_size (uw_wh u 200) = logged_size c r /\ u_status (uw_wh u 200) = Some (r_status r)).
-    { unfold uw_wh. destruct Hc as [[Hc _]|[Hc [H2 _]]]; rewrite Hc; simpl; [auto|]. rewrite H2. auto. }
-    destruct H1 as [H1 H2]. unfold head_ok in Hh. unfold logged_size in *.
-    destruct (w_head c) eqn:Eh.
-    + simpl in Hh. rewrite Hh. simpl.
-      destruct (body_forbidden (client_status (uw_wh u 200)));
-        (split; simpl; [unfold logged_size; simpl; rewrite Eh; exact H1|left; split; [exact H2|reflexivity]]).
-    + rewrite andb_false_r.
-      destruct (w_nethttp c && body_forbidden (client_status (uw_wh u 200))).
-      * split; simpl; [unfold logged_size; simpl; rewrite Eh; exact H1|left; split; [exact H2|reflexivity]].
-      * destruct fail as [k|]; split; simpl; try (unfold logged_size; simpl; rewrite Eh);
-          try exact H1; try (left; split; [exact H2|reflexivity]).
-        rewrite H1. reflexivity.
+  - destruct (wh200_view c u r Hcons) as [Hst [Hsz Hlo]]. destruct Hcons as [Hs Hc0]. cbn [fst snd] in Hs.
+    assert (Hfin : forall u' n, u_status u' = u_status (uw_wh u 200) ->
+              u_size u' = logged_size c (rec_add r n) + u_lost u' -> consistent c (u', rec_add r n)).
+    { intros u' n E1 E2. split; [exact E2|]. left. cbn [fst snd]. rewrite E1. split; [exact Hst|reflexivity]. }
+    destruct k; cbn [step].
+    + unfold uw_write, uw_mode.
+      destruct (w_nethttp c && body_forbidden (client_status (uw_wh u 200))) eqn:E1; cbn [N.eqb Pos.eqb].
+      { apply Hfin; [reflexivity|]. rewrite logged_size_add. destruct (w_head c) eqn:Eh.
+        - unfold logged_size in Hs. rewrite Eh in Hs. lia.
+        - lia. }
+      destruct (w_nethttp c && w_head c) eqn:E2; cbn [N.eqb Pos.eqb].
+      { apply Hfin; [reflexivity|]. rewrite logged_size_add.
+        apply andb_true_iff in E2 as [_ Eh]. rewrite Eh. unfold logged_size in Hs. rewrite Eh in Hs. lia. }
+      assert (Eh : w_head c = false).
+      { destruct (head_ok_cases c Hh) as [[Eh En]|Eh]; [rewrite Eh, En in E2; discriminate|exact Eh]. }
+      destruct (u_dead (uw_wh u 200)); cbn [N.eqb Pos.eqb].
+      { apply Hfin; [reflexivity|]. rewrite logged_size_add, Eh. lia. }
+      destruct cut as [j|]; (apply Hfin; [reflexivity|]); rewrite logged_size_add, Eh; cbn; lia.
+    + destruct (len =? 0); [split; [exact Hs|exact Hc0]|].
+      unfold uw_copy, uw_mode.
+      destruct (w_nethttp c && body_forbidden (client_status (uw_wh u 200))) eqn:E1; cbn [N.eqb Pos.eqb].
+      { apply Hfin; [reflexivity|]. rewrite logged_size_add. destruct (w_head c) eqn:Eh.
+        - unfold logged_size in Hs. rewrite Eh in Hs. lia.
+        - lia. }
+      destruct (w_nethttp c && w_head c) eqn:E2; cbn [N.eqb Pos.eqb].
+      { apply Hfin; [reflexivity|]. rewrite logged_size_add.
+        apply andb_true_iff in E2 as [_ Eh]. rewrite Eh. unfold logged_size in Hs. rewrite Eh in Hs. lia. }
+      assert (Eh : w_head c = false).
+      { destruct (head_ok_cases c Hh) as [[Eh En]|Eh]; [rewrite Eh, En in E2; discriminate|exact Eh]. }
+      destruct (u_dead (uw_wh u 200)); cbn [N.eqb Pos.eqb].
+      { apply Hfin; [reflexivity|]. rewrite logged_size_add, Eh. lia. }
+      destruct cut as [j|]; (apply Hfin; [reflexivity|]); rewrite logged_size_add, Eh; cbn.
+      * pose proof (copy_chunk_split j). lia.
+      * lia.
 Qed.
 
 Lemma run_consistent c : forall ops s,
@@ -512,7 +556,7 @@ Proof.
   simpl in Hf. apply andb_true_iff in Hf as [Ho Hf].
   assert (Hs : consistent c (step c s o)).
   { apply step_consistent; auto. simpl. rewrite Ho. reflexivity. }
-  destruct o as [code|len fail|]; simpl; [apply IH; assumption|apply IH; assumption|exact Hc].
+  destruct o as [code|k len se cut|]; simpl; [apply IH; assumption|apply IH; assumption|exact Hc].
 Qed.
 
 Lemma final_codes_app a b : final_codes (a ++ b) = final_codes a && final_codes b.
@@ -526,13 +570,13 @@ Proof. intro H. simpl. rewrite (error_code_final ret H). reflexivity. Qed.
 
 (* whatever the handler does: either no line is written, or the middleware returns (it does not
    panic) a status below 400 (so that the server adds nothing) and every line carries the
-   committed status and the delivered byte count *)
+   committed status and the accepted byte count, less the bytes accepted by failing calls *)
 Lemma log_serve_lines c cs tbl ek rules path ops ret :
   head_ok c = true -> final_codes ops = true ->
   let '(u', ret', p, lines) := log_serve c cs tbl ek rules path ops ret uw0 return Prop in
   lines = [] \/
   (p = false /\ (400 <=? ret')%Z = false /\
-   forall l, In l lines -> snd (fst l) = client_status u' /\ snd l = u_size u').
+   forall l, In l lines -> snd (fst l) = client_status u' /\ snd l + u_lost u' = u_size u').
 Proof.
   intros Hh Hf. unfold log_serve.
   destruct (find (fun r => path_matches cs path (ru_scope r)) rules) as [r|].
@@ -544,17 +588,17 @@ Proof.
       destruct (run c (u1, r1) (err_ops tbl ek (if p then 500%Z else ret))) as [[u2 r2] p2]. cbn [fst] in *.
       apply consistent_client in Hc2 as [H1 H2]. cbn [fst snd] in *.
       right. split; [reflexivity|]. split; [reflexivity|].
-      intros l Hl. apply in_map_iff in Hl as [e [<- _]]. simpl. split; symmetry; assumption.
+      intros l Hl. apply in_map_iff in Hl as [e [<- _]]. simpl. split; [symmetry; assumption|rewrite H2; reflexivity].
     + apply consistent_client in Hc as [H1 H2]. cbn [fst snd] in *.
       right. split; [reflexivity|]. split; [exact E|].
-      intros l Hl. apply in_map_iff in Hl as [e [<- _]]. simpl. split; symmetry; assumption.
+      intros l Hl. apply in_map_iff in Hl as [e [<- _]]. simpl. split; [symmetry; assumption|rewrite H2; reflexivity].
   - destruct (run c (uw0, rec0) ops) as [[u' r'] p]. left. reflexivity.
 Qed.
 
 Lemma logged_exact c cs tbl ek rules path ops ret :
   head_ok c = true -> final_codes ops = true ->
   let '(u', _, _, lines) := log_serve c cs tbl ek rules path ops ret uw0 return Prop in
-  forall l, In l lines -> snd (fst l) = client_status u' /\ snd l = u_size u'.
+  forall l, In l lines -> snd (fst l) = client_status u' /\ snd l + u_lost u' = u_size u'.
 Proof.
   intros Hh Hf. pose proof (log_serve_lines c cs tbl ek rules path ops ret Hh Hf) as H.
   destruct (log_serve c cs tbl ek rules path ops ret uw0) as [[[u' r'] p] lines].
@@ -683,12 +727,12 @@ Proof.
   destruct hdrw; [apply header_filter_final|]; exact Hn.
 Qed.
 
-Lemma site_logged_exact c cs tbl (haserr hdrw : bool) ds path ops ret :
+Lemma site_run_exact c cs tbl (haserr hdrw : bool) ds path ops ret :
   head_ok c = true -> final_codes ops = true ->
-  let '(st, sz, lines) := site_serve c cs tbl haserr hdrw ds path ops ret return Prop in
-  forall l, In l lines -> snd (fst l) = st /\ snd l = sz.
+  let '(u', lines) := site_run c cs tbl haserr hdrw ds path ops ret return Prop in
+  forall l, In l lines -> snd (fst l) = client_status u' /\ snd l + u_lost u' = u_size u'.
 Proof.
-  intros Hh Hf. unfold site_serve.
+  intros Hh Hf. unfold site_run.
   pose proof (inner_flat_final tbl haserr hdrw ops ret Hf) as Hf1.
   destruct (inner_flat tbl haserr hdrw ops ret) as [ops1 ret1]. cbn [fst] in Hf1.
   pose proof (log_serve_lines c cs tbl 1 (parse_logs ds 0 []) path ops1 ret1 Hh Hf1) as H.
@@ -696,12 +740,133 @@ Proof.
   destruct H as [->|[-> [Hr H]]]; [intros l []|]. rewrite Hr. exact H.
 Qed.
 
+(* ---- bytes accepted by failing calls ------------------------------------------------------------ *)
+Lemma step_lost_clean c u r o :
+  clean_cut o = true -> u_lost u = 0 -> u_lost (fst (step c (u, r) o)) = 0.
+Proof.
+  intros Hc H0. destruct o as [code|k len se cut|]; [| |exact H0].
+  - cbn. unfold uw_wh. destruct (u_status u); cbn; exact H0.
+  - assert (H1 : u_lost (uw_wh u 200) = 0) by (unfold uw_wh; destruct (u_status u); cbn; exact H0).
+    destruct k; cbn [step].
+    + unfold uw_write. destruct (uw_mode c (uw_wh u 200) =? 1); [exact H1|].
+      destruct (uw_mode c (uw_wh u 200) =? 2); [exact H1|].
+      destruct (uw_mode c (uw_wh u 200) =? 3); [exact H1|].
+      destruct cut as [j|]; cbn; [|lia]. cbn in Hc. apply N.eqb_eq in Hc. lia.
+    + destruct (len =? 0); [exact H0|].
+      unfold uw_copy. destruct (uw_mode c (uw_wh u 200) =? 1); [exact H1|].
+      destruct (uw_mode c (uw_wh u 200) =? 2); [exact H1|].
+      destruct (uw_mode c (uw_wh u 200) =? 3); [exact H1|].
+      destruct cut as [j|]; cbn; [|lia]. cbn in Hc. apply N.eqb_eq in Hc. fold copy_chunk. lia.
+Qed.
+
+Lemma run_lost_clean c : forall ops u r,
+  clean_cuts ops = true -> u_lost u = 0 -> u_lost (fst (fst (run c (u, r) ops))) = 0.
+Proof.
+  induction ops as [|o ops IH]; intros u r Hc H0; [exact H0|].
+  simpl in Hc. apply andb_true_iff in Hc as [Ho Hc].
+  pose proof (step_lost_clean c u r o Ho H0) as H1.
+  destruct (step c (u, r) o) as [u1 r1] eqn:Es. cbn [fst] in H1.
+  destruct o as [code|k len se cut|]; cbn [run]; [rewrite Es; apply IH; assumption|rewrite Es; apply IH; assumption|exact H0].
+Qed.
+
+Lemma clean_cuts_app a b : clean_cuts (a ++ b) = clean_cuts a && clean_cuts b.
+Proof. unfold clean_cuts. apply forallb_app. Qed.
+
+Lemma err_ops_clean tbl ek code : clean_cuts (err_ops tbl ek code) = true.
+Proof. reflexivity. Qed.
+
+Lemma upto_panic_clean : forall ops, clean_cuts ops = true -> clean_cuts (fst (upto_panic ops)) = true.
+Proof.
+  induction ops as [|o ops IH]; intro H; [reflexivity|].
+  simpl in H. apply andb_true_iff in H as [Ho H]. specialize (IH H).
+  destruct o as [code|k len se cut|]; [| |reflexivity]; simpl; destruct (upto_panic ops); simpl in *; rewrite ?Ho, IH; reflexivity.
+Qed.
+
+Lemma errors_flat_clean tbl ops ret : clean_cuts ops = true -> clean_cuts (fst (errors_flat tbl ops ret)) = true.
+Proof.
+  intro H. unfold errors_flat. pose proof (upto_panic_clean ops H) as Ha.
+  destruct (upto_panic ops) as [a p]. simpl in Ha.
+  destruct p; [|destruct (400 <=? ret)%Z]; cbn [fst]; rewrite ?clean_cuts_app, ?Ha; reflexivity.
+Qed.
+
+Lemma header_filter_clean : forall ops w, clean_cuts ops = true -> clean_cuts (header_filter w ops) = true.
+Proof.
+  induction ops as [|o ops IH]; intros w H; [reflexivity|].
+  simpl in H. apply andb_true_iff in H as [Ho H].
+  destruct o as [code|k len se cut|]; simpl.
+  - destruct w; simpl; apply IH; exact H.
+  - simpl in Ho. rewrite Ho. apply IH. exact H.
+  - apply IH. exact H.
+Qed.
+
+Lemma inner_flat_clean tbl (haserr hdrw : bool) ops ret :
+  clean_cuts ops = true -> clean_cuts (fst (inner_flat tbl haserr hdrw ops ret)) = true.
+Proof.
+  intro H. unfold inner_flat.
+  assert (Hn : clean_cuts (fst (if haserr then errors_flat tbl ops ret else (ops, ret))) = true).
+  { destruct haserr; [apply errors_flat_clean|]; exact H. }
+  destruct (if haserr then errors_flat tbl ops ret else (ops, ret)) as [ops1 ret1]. simpl in *.
+  destruct hdrw; [apply header_filter_clean|]; exact Hn.
+Qed.
+
+Lemma log_serve_lost_clean c cs tbl ek rules path ops ret u :
+  clean_cuts ops = true -> u_lost u = 0 ->
+  u_lost (fst (fst (fst (log_serve c cs tbl ek rules path ops ret u)))) = 0.
+Proof.
+  intros Hc H0. unfold log_serve.
+  pose proof (run_lost_clean c ops u rec0 Hc H0) as H1.
+  destruct (find (fun r => path_matches cs path (ru_scope r)) rules) as [r|].
+  - destruct (run c (u, rec0) ops) as [[u1 r1] p]. cbn [fst] in H1.
+    destruct (400 <=? (if p then 500 else ret))%Z; [|exact H1].
+    pose proof (run_lost_clean c (err_ops tbl ek (if p then 500%Z else ret)) u1 r1 (err_ops_clean _ _ _) H1) as H2.
+    destruct (run c (u1, r1) (err_ops tbl ek (if p then 500%Z else ret))) as [[u2 r2] p2]. exact H2.
+  - destruct (run c (u, rec0) ops) as [[u' r'] p]. exact H1.
+Qed.
+
+Lemma site_run_lost_clean c cs tbl (haserr hdrw : bool) ds path ops ret :
+  clean_cuts ops = true -> u_lost (fst (site_run c cs tbl haserr hdrw ds path ops ret)) = 0.
+Proof.
+  intro Hc. unfold site_run.
+  pose proof (inner_flat_clean tbl haserr hdrw ops ret Hc) as Hc1.
+  destruct (inner_flat tbl haserr hdrw ops ret) as [ops1 ret1]. cbn [fst] in Hc1.
+  pose proof (log_serve_lost_clean c cs tbl 1 (parse_logs ds 0 []) path ops1 ret1 uw0 Hc1 eq_refl) as H.
+  destruct (log_serve c cs tbl 1 (parse_logs ds 0 []) path ops1 ret1 uw0) as [[[u ret2] p] lines]. cbn [fst] in *.
+  destruct p.
+  - apply (run_lost_clean c (err_ops tbl 1 500) u rec0 (err_ops_clean _ _ _) H).
+  - destruct (400 <=? ret2)%Z; [|exact H].
+    apply (run_lost_clean c (err_ops tbl 1 ret2) u rec0 (err_ops_clean _ _ _) H).
+Qed.
+
+(* with all-or-nothing writer failures: the lines are what the client is sent, to the byte *)
+Lemma site_logged_exact c cs tbl (haserr hdrw : bool) ds path ops ret :
+  head_ok c = true -> final_codes ops = true -> clean_cuts ops = true ->
+  let '(st, sz, lines) := site_serve c cs tbl haserr hdrw ds path ops ret return Prop in
+  forall l, In l lines -> snd (fst l) = st /\ snd l = sz.
+Proof.
+  intros Hh Hf Hc. unfold site_serve.
+  pose proof (site_run_exact c cs tbl haserr hdrw ds path ops ret Hh Hf) as H.
+  pose proof (site_run_lost_clean c cs tbl haserr hdrw ds path ops ret Hc) as H0.
+  destruct (site_run c cs tbl haserr hdrw ds path ops ret) as [u' lines]. cbn [fst] in H0.
+  intros l Hl. destruct (H l Hl) as [H1 H2]. split; [exact H1|]. rewrite H0 in H2. lia.
+Qed.
+
+Lemma logged_exact_clean c cs tbl ek rules path ops ret :
+  head_ok c = true -> final_codes ops = true -> clean_cuts ops = true ->
+  let '(u', _, _, lines) := log_serve c cs tbl ek rules path ops ret uw0 return Prop in
+  forall l, In l lines -> snd (fst l) = client_status u' /\ snd l = u_size u'.
+Proof.
+  intros Hh Hf Hc. pose proof (logged_exact c cs tbl ek rules path ops ret Hh Hf) as H.
+  pose proof (log_serve_lost_clean c cs tbl ek rules path ops ret uw0 Hc eq_refl) as H0.
+  destruct (log_serve c cs tbl ek rules path ops ret uw0) as [[[u' r'] p] lines]. cbn [fst] in H0.
+  intros l Hl. destruct (H l Hl) as [H1 H2]. split; [exact H1|]. rewrite H0 in H2. lia.
+Qed.
+
 Lemma site_lines c cs tbl (haserr hdrw : bool) ds path ops ret :
   let flat := inner_flat tbl haserr hdrw ops ret in
   snd (site_serve c cs tbl haserr hdrw ds path ops ret) =
   snd (log_serve c cs tbl 1 (parse_logs ds 0 []) path (fst flat) (snd flat) uw0).
 Proof.
-  cbv zeta. unfold site_serve.
+  cbv zeta. unfold site_serve, site_run.
   destruct (inner_flat tbl haserr hdrw ops ret) as [ops1 ret1]. cbn [fst snd].
   destruct (log_serve c cs tbl 1 (parse_logs ds 0 []) path ops1 ret1 uw0) as [[[u r] p] lines].
   reflexivity.
@@ -774,4 +939,270 @@ Lemma escaped_text_literal gs w : expand gs (esc w) = Ok w.
 Proof.
   destruct (escaped_open_no_placeholder gs (esc w) (esc_all_open_escaped w)) as [H _].
   rewrite H, unescape_esc. reflexivity.
+Qed.
+
+(* ------------------------------------------------------------------------------------------ *)
+(* D. {size} counts the bytes the writer accepted                                              *)
+(* ------------------------------------------------------------------------------------------ *)
+(* every op sequence — Write, WriteString, io.Copy / CopyN / ReadFrom-if-offered from sources
+   that end or FAIL after any number of bytes, calls cut short by the writer at any byte: the
+   bytes the writer accepted are the logged size plus the bytes accepted by calls that reported
+   an error *)
+Lemma size_accepted_general c ops :
+  head_ok c = true -> final_codes ops = true ->
+  let '((u, r), _) := run c (uw0, rec0) ops return Prop in
+  client_status u = r_status r /\ u_size u = logged_size c r + u_lost u.
+Proof.
+  intros Hh Hf. pose proof (run_consistent c ops (uw0, rec0) Hh Hf (consistent_init c)) as H.
+  destruct (run c (uw0, rec0) ops) as [[u r] p]. cbn [fst] in H.
+  apply consistent_client in H. exact H.
+Qed.
+
+(* a source that fails is, for the writer and the recorder, a source that ends *)
+Lemma step_srcerr_irrelevant c s o : step c s (clear_srcerr o) = step c s o.
+Proof. destruct s as [u r]. destruct o as [code|k len se cut|]; try reflexivity. Qed.
+
+Lemma run_srcerr_irrelevant c : forall ops s, run c s (map clear_srcerr ops) = run c s ops.
+Proof.
+  induction ops as [|o ops IH]; intro s; [reflexivity|].
+  destruct o as [code|k len se cut|]; cbn [map clear_srcerr run]; [apply IH| |reflexivity].
+  rewrite IH. rewrite <- (step_srcerr_irrelevant c s (OB k len se cut)). reflexivity.
+Qed.
+
+Lemma uncut_clean : forall ops, uncut ops = true -> clean_cuts ops = true.
+Proof.
+  induction ops as [|o ops IH]; intro H; [reflexivity|].
+  simpl in H. apply andb_true_iff in H as [Ho H]. cbn [clean_cuts forallb]. fold (clean_cuts ops). rewrite (IH H), andb_true_r.
+  destruct o as [code|k len se [j|]|]; try reflexivity; try discriminate; destruct k; reflexivity.
+Qed.
+
+(* no writer-side failure (the client reads everything): the logged size is what the writer
+   accepted, whatever the sources of the copies do *)
+Lemma size_accepted_sources c ops :
+  head_ok c = true -> final_codes ops = true -> clean_cuts ops = true ->
+  let '((u, r), _) := run c (uw0, rec0) ops return Prop in
+  u_lost u = 0 /\ u_size u = logged_size c r.
+Proof.
+  intros Hh Hf Hc. pose proof (size_accepted_general c ops Hh Hf) as H.
+  pose proof (run_lost_clean c ops uw0 rec0 Hc eq_refl) as H0.
+  destruct (run c (uw0, rec0) ops) as [[u r] p]. cbn [fst] in H0. destruct H as [_ H].
+  split; [exact H0|]. rewrite H0 in H. lia.
+Qed.
+
+(* ... but a Write that the writer cuts short after accepting some bytes counts none of them *)
+Lemma size_accepted_refuted :
+  exists c ops, head_ok c = true /\ final_codes ops = true /\
+    let '((u, r), _) := run c (uw0, rec0) ops return Prop in logged_size c r < u_size u.
+Proof.
+  exists {| w_nethttp := true; w_head := false |}, [OB BWrite 8388608 false (Some 847721)].
+  vm_compute. repeat split.
+Qed.
+
+(* ------------------------------------------------------------------------------------------ *)
+(* E. concurrently served requests do not share placeholder or recorder state                   *)
+(* ------------------------------------------------------------------------------------------ *)
+Lemma nlook_nupd_same {A} (f : A -> A) k : forall l, nlook k (nupd k f l) = option_map f (nlook k l).
+Proof.
+  induction l as [|[k' v] l IH]; [reflexivity|]. simpl.
+  destruct (Nat.eqb k k') eqn:E; simpl; rewrite E; [reflexivity|exact IH].
+Qed.
+
+Lemma nlook_nupd_other {A} (f : A -> A) k k' : k <> k' -> forall l, nlook k' (nupd k f l) = nlook k' l.
+Proof.
+  intros Hne. induction l as [|[k0 v] l IH]; [reflexivity|]. simpl.
+  destruct (Nat.eqb k k0) eqn:E; simpl.
+  - apply Nat.eqb_eq in E. subst k0.
+    destruct (Nat.eqb k' k) eqn:E2; [apply Nat.eqb_eq in E2; congruence|reflexivity].
+  - destruct (Nat.eqb k' k0); [reflexivity|exact IH].
+Qed.
+
+(* what the server guarantees by construction: the replacer in a request's context was allocated
+   for it (fresh address), is live, and no other request's context holds it *)
+Definition wf (w : world) : Prop :=
+  (forall i a, nlook i (wd_ctx w) = Some a -> (a < wd_next w)%nat) /\
+  (forall i j a, nlook i (wd_ctx w) = Some a -> nlook j (wd_ctx w) = Some a -> i = j) /\
+  (forall i a, nlook i (wd_ctx w) = Some a -> exists p, nlook a (wd_heap w) = Some p).
+
+Lemma wf0 : wf world0.
+Proof. repeat split; intros; discriminate. Qed.
+
+Lemma world_step_view w j a :
+  wf w ->
+  wf (world_step w (j, a)) /\
+  forall i, view (world_step w (j, a)) i = if Nat.eqb i j then solo_step (view w j) a else view w i.
+Proof.
+  intros [Hlt [Hinj Hlive]]. unfold world_step.
+  destruct (nlook j (wd_ctx w)) as [ad|] eqn:Ej.
+  - (* the request is being served: its own object is updated *)
+    assert (Hw : wf {| wd_next := wd_next w; wd_heap := nupd ad (preq_step a) (wd_heap w); wd_ctx := wd_ctx w |}).
+    { split; [exact Hlt|]. split; [exact Hinj|]. intros i a0 Hi. cbn [wd_ctx wd_heap] in *.
+      destruct (Hlive i a0 Hi) as [p Hp]. destruct (Nat.eq_dec ad a0) as [<-|Hne].
+      - rewrite nlook_nupd_same, Hp. simpl. eauto.
+      - rewrite (nlook_nupd_other _ ad a0 Hne). eauto. }
+    assert (Hv : forall i, view {| wd_next := wd_next w; wd_heap := nupd ad (preq_step a) (wd_heap w); wd_ctx := wd_ctx w |} i =
+                 if Nat.eqb i j then solo_step (view w j) a else view w i).
+    { intro i. unfold view. cbn [wd_ctx wd_heap].
+      destruct (Nat.eqb i j) eqn:Eij.
+      - apply Nat.eqb_eq in Eij. subst i. rewrite Ej, nlook_nupd_same.
+        destruct (Hlive j ad Ej) as [p Hp]. rewrite Hp. reflexivity.
+      - destruct (nlook i (wd_ctx w)) as [ad'|] eqn:Ei; [|reflexivity].
+        apply nlook_nupd_other. intros ->. apply Nat.eqb_neq in Eij. apply Eij. exact (Hinj i j ad' Ei Ej). }
+    destruct a; (split; [exact Hw|exact Hv]).
+  - (* not being served *)
+    assert (Hnone : view w j = None) by (unfold view; rewrite Ej; reflexivity).
+    destruct a as [c|k v|o].
+    + (* Server.ServeHTTP: a fresh replacer for this request *)
+      split.
+      * split; [|split]; cbn [wd_ctx wd_heap wd_next].
+        -- intros i a0 Hi. simpl in Hi. destruct (Nat.eqb i j); [injection Hi as <-; lia|].
+           specialize (Hlt i a0 Hi). lia.
+        -- intros i1 i2 a0 H1 H2. simpl in H1, H2.
+           destruct (Nat.eqb i1 j) eqn:E1, (Nat.eqb i2 j) eqn:E2.
+           ++ apply Nat.eqb_eq in E1, E2. congruence.
+           ++ injection H1 as <-. specialize (Hlt i2 _ H2). lia.
+           ++ injection H2 as <-. specialize (Hlt i1 _ H1). lia.
+           ++ exact (Hinj i1 i2 a0 H1 H2).
+        -- intros i a0 Hi. simpl in Hi. simpl. destruct (Nat.eqb i j).
+           ++ injection Hi as <-. rewrite Nat.eqb_refl. eauto.
+           ++ specialize (Hlt i a0 Hi). destruct (Hlive i a0 Hi) as [p Hp].
+              destruct (Nat.eqb a0 (wd_next w)) eqn:E; [apply Nat.eqb_eq in E; lia|eauto].
+      * intro i. unfold view. cbn [wd_ctx wd_heap]. simpl.
+        destruct (Nat.eqb i j) eqn:Eij.
+        -- rewrite Nat.eqb_refl. fold (view w j). rewrite Hnone. reflexivity.
+        -- destruct (nlook i (wd_ctx w)) as [ad'|] eqn:Ei; [|reflexivity].
+           specialize (Hlt i ad' Ei).
+           destruct (Nat.eqb ad' (wd_next w)) eqn:E; [apply Nat.eqb_eq in E; lia|reflexivity].
+    + split; [repeat split; assumption|]. intro i. destruct (Nat.eqb i j) eqn:Eij; [|reflexivity].
+      apply Nat.eqb_eq in Eij. subst i. rewrite Hnone. reflexivity.
+    + split; [repeat split; assumption|]. intro i. destruct (Nat.eqb i j) eqn:Eij; [|reflexivity].
+      apply Nat.eqb_eq in Eij. subst i. rewrite Hnone. reflexivity.
+Qed.
+
+Lemma world_run_view : forall sched w, wf w ->
+  forall i, view (world_run sched w) i = solo (proj i sched) (view w i).
+Proof.
+  induction sched as [|[j a] sched IH]; intros w Hw i; [reflexivity|].
+  destruct (world_step_view w j a Hw) as [Hw' Hv].
+  unfold world_run in *. cbn [fold_left]. rewrite (IH _ Hw' i), Hv.
+  unfold proj. cbn [filter fst]. rewrite (Nat.eqb_sym j i).
+  destruct (Nat.eqb i j) eqn:Eij; [|reflexivity].
+  apply Nat.eqb_eq in Eij. subst j. reflexivity.
+Qed.
+
+Lemma requests_do_not_share sched i :
+  view (world_run sched world0) i = solo (proj i sched) None.
+Proof. apply (world_run_view sched world0 wf0 i). Qed.
+
+Lemma line_depends_on_own_steps sched1 sched2 i fmt base :
+  proj i sched1 = proj i sched2 ->
+  req_line fmt base (view (world_run sched1 world0) i) = req_line fmt base (view (world_run sched2 world0) i).
+Proof. intro H. rewrite !requests_do_not_share, H. reflexivity. Qed.
+
+(* ------------------------------------------------------------------------------------------ *)
+(* F. the default vocabulary of the code is the model's dispatch table                          *)
+(* ------------------------------------------------------------------------------------------ *)
+Lemma vocab_dispatch_computed : vocab_matches_dispatch = true.
+Proof. vm_compute. reflexivity. Qed.
+
+Lemma assoc_some_in {A} k : forall (l : list (bytes * A)) v, assoc k l = Some v -> In (k, v) l.
+Proof.
+  induction l as [|[k' v'] l IH]; intros v H; [discriminate|]. simpl in H.
+  destruct (beq k k') eqn:E.
+  - apply beq_eq in E. subst k'. injection H as <-. now left.
+  - right. apply IH. exact H.
+Qed.
+
+Lemma vocabulary_is_dispatch key :
+  mem key gen_c20_vocab = true <-> exists h, assoc key dispatch = Some h.
+Proof.
+  pose proof vocab_dispatch_computed as H. unfold vocab_matches_dispatch in H.
+  apply andb_true_iff in H as [H1 H2]. split.
+  - intro Hm. unfold mem in Hm. apply existsb_exists in Hm as [x [Hx Ex]]. apply beq_eq in Ex. subst x.
+    rewrite forallb_forall in H1. specialize (H1 key Hx).
+    destruct (assoc key dispatch) as [h|]; [eauto|discriminate].
+  - intros [h Hh]. apply assoc_some_in in Hh. rewrite forallb_forall in H2. exact (H2 (key, h) Hh).
+Qed.
+
+Lemma size_accepted_partial c ops :
+  head_ok c = true -> final_codes ops = true ->
+  let '((u, r), _) := run c (uw0, rec0) ops return Prop in
+  client_status u = r_status r /\
+  u_size u = logged_size c r + u_lost u /\
+  (clean_cuts ops = true -> u_lost u = 0 /\ u_size u = logged_size c r).
+Proof.
+  intros Hh Hf. pose proof (size_accepted_general c ops Hh Hf) as H.
+  pose proof (size_accepted_sources c ops Hh Hf) as H2.
+  destruct (run c (uw0, rec0) ops) as [[u r] p]. destruct H as [Ha Hb]. repeat split; auto; apply H2; assumption.
+Qed.
+
+Lemma source_failures_lose_nothing c ops :
+  head_ok c = true -> final_codes ops = true -> uncut ops = true ->
+  run c (uw0, rec0) ops = run c (uw0, rec0) (map clear_srcerr ops) /\
+  let '((u, r), _) := run c (uw0, rec0) ops return Prop in u_size u = logged_size c r.
+Proof.
+  intros Hh Hf Hu. split; [symmetry; apply run_srcerr_irrelevant|].
+  pose proof (size_accepted_sources c ops Hh Hf (uncut_clean ops Hu)) as H.
+  destruct (run c (uw0, rec0) ops) as [[u r] p]. apply H.
+Qed.
+
+(* ------------------------------------------------------------------------------------------ *)
+(* G. on a net/http connection at most ONE call loses bytes                                     *)
+(* ------------------------------------------------------------------------------------------ *)
+(* the first failed write to the connection makes every later Write fail with 0 bytes, so the
+   bytes missing from {size} are those of a single call: all of one Write at worst, less than one
+   chunk of a copy *)
+Definition lost_inv (B : N) (u : uw) : Prop :=
+  if u_dead u then u_lost u <= B else u_lost u = 0.
+
+Lemma lost_inv_wh B u code : lost_inv B u -> lost_inv B (uw_wh u code).
+Proof. unfold lost_inv, uw_wh. destruct (u_status u); cbn; auto. Qed.
+
+Lemma step_lost_inv c B u r o :
+  w_nethttp c = true -> cut_within o = true -> op_loss_bound o <= B ->
+  lost_inv B u -> lost_inv B (fst (step c (u, r) o)).
+Proof.
+  intros Hn Hc Hb Hi. destruct o as [code|k len se cut|]; [apply lost_inv_wh; exact Hi| |exact Hi].
+  pose proof (lost_inv_wh B u 200%Z Hi) as H1.
+  destruct k; cbn [step].
+  - unfold uw_write, uw_mode.
+    destruct (w_nethttp c && body_forbidden (client_status (uw_wh u 200))); cbn [N.eqb Pos.eqb]; [exact H1|].
+    destruct (w_nethttp c && w_head c); cbn [N.eqb Pos.eqb]; [exact H1|].
+    destruct (u_dead (uw_wh u 200)) eqn:Ed; cbn [N.eqb Pos.eqb]; [exact H1|].
+    unfold lost_inv in H1. rewrite Ed in H1.
+    destruct cut as [j|]; cbn; unfold lost_inv; cbn; rewrite Ed, ?Hn; cbn.
+    + cbn in Hc, Hb. apply N.ltb_lt in Hc. lia.
+    + lia.
+  - destruct (len =? 0); [exact Hi|].
+    unfold uw_copy, uw_mode.
+    destruct (w_nethttp c && body_forbidden (client_status (uw_wh u 200))); cbn [N.eqb Pos.eqb]; [exact H1|].
+    destruct (w_nethttp c && w_head c); cbn [N.eqb Pos.eqb]; [exact H1|].
+    destruct (u_dead (uw_wh u 200)) eqn:Ed; cbn [N.eqb Pos.eqb]; [exact H1|].
+    unfold lost_inv in H1. rewrite Ed in H1.
+    destruct cut as [j|]; cbn; unfold lost_inv; cbn; rewrite Ed, ?Hn; cbn.
+    + cbn in Hc, Hb. apply N.ltb_lt in Hc. fold copy_chunk.
+      pose proof (N.mod_le j copy_chunk ltac:(discriminate)).
+      pose proof (N.mod_lt j copy_chunk ltac:(discriminate)). lia.
+    + lia.
+Qed.
+
+Lemma run_lost_inv c B : forall ops u r,
+  w_nethttp c = true -> cuts_within ops = true -> max_loss ops <= B ->
+  lost_inv B u -> lost_inv B (fst (fst (run c (u, r) ops))).
+Proof.
+  induction ops as [|o ops IH]; intros u r Hn Hc Hb Hi; [exact Hi|].
+  simpl in Hc. apply andb_true_iff in Hc as [Ho Hc]. cbn [max_loss] in Hb.
+  pose proof (step_lost_inv c B u r o Hn Ho ltac:(lia) Hi) as H1.
+  destruct (step c (u, r) o) as [u1 r1] eqn:Es. cbn [fst] in H1.
+  destruct o as [code|k len se cut|]; cbn [run]; [rewrite Es; apply IH; auto; lia|rewrite Es; apply IH; auto; lia|exact Hi].
+Qed.
+
+Lemma abort_loses_one_call c ops :
+  w_nethttp c = true -> cuts_within ops = true ->
+  let '((u, r), _) := run c (uw0, rec0) ops return Prop in
+  u_lost u <= max_loss ops /\ (u_dead u = false -> u_lost u = 0).
+Proof.
+  intros Hn Hc.
+  pose proof (run_lost_inv c (max_loss ops) ops uw0 rec0 Hn Hc (N.le_refl _) eq_refl) as H.
+  destruct (run c (uw0, rec0) ops) as [[u r] p]. cbn [fst] in H. unfold lost_inv in H.
+  destruct (u_dead u); [split; [exact H|discriminate]|split; [lia|auto]].
 Qed.
